@@ -24,23 +24,29 @@ require (
 	github.com/cockroachdb/errors v1.11.1 // indirect
 	github.com/cockroachdb/logtags v0.0.0-20230118201751-21c54148d20b // indirect
 	github.com/cockroachdb/redact v1.1.5 // indirect
+	github.com/fsnotify/fsnotify v1.7.0 // indirect
 	github.com/getsentry/sentry-go v0.26.0 // indirect
 	github.com/gogo/protobuf v1.3.2 // indirect
 	github.com/golang/snappy v0.0.4 // indirect
 	github.com/google/btree v1.1.2 // indirect
 	github.com/google/uuid v1.6.0 // indirect
+	github.com/grpc-ecosystem/go-grpc-middleware/providers/prometheus v1.0.1 // indirect
+	github.com/grpc-ecosystem/go-grpc-middleware/v2 v2.1.0 // indirect
 	github.com/hashicorp/errwrap v1.1.0 // indirect
 	github.com/hashicorp/go-immutable-radix v1.3.1 // indirect
 	github.com/hashicorp/go-msgpack/v2 v2.1.1 // indirect
 	github.com/hashicorp/go-multierror v1.1.1 // indirect
 	github.com/hashicorp/go-sockaddr v1.0.5 // indirect
 	github.com/hashicorp/golang-lru v1.0.2 // indirect
+	github.com/hashicorp/hcl v1.0.0 // indirect
 	github.com/hashicorp/memberlist v0.5.1 // indirect
 	github.com/klauspost/compress v1.17.8 // indirect
 	github.com/kr/pretty v0.3.1 // indirect
 	github.com/kr/text v0.2.0 // indirect
 	github.com/lni/goutils v1.4.0 // indirect
+	github.com/magiconair/properties v1.8.7 // indirect
 	github.com/miekg/dns v1.1.56 // indirect
+	github.com/mitchellh/mapstructure v1.5.0 // indirect
 	github.com/oxtoacart/bpool v0.0.0-20190530202638-03653db5a59c // indirect
 	github.com/pierrec/lz4/v4 v4.1.18 // indirect
 	github.com/pkg/errors v0.9.1 // indirect
@@ -50,9 +56,17 @@ require (
 	github.com/prometheus/common v0.53.0 // indirect
 	github.com/prometheus/procfs v0.12.0 // indirect
 	github.com/rogpeppe/go-internal v1.11.0 // indirect
+	github.com/sagikazarmark/slog-shim v0.1.0 // indirect
 	github.com/sean-/seed v0.0.0-20170313163322-e2103e2c3529 // indirect
+	github.com/spf13/afero v1.11.0 // indirect
+	github.com/spf13/cast v1.6.0 // indirect
+	github.com/spf13/cobra v1.8.0 // indirect
+	github.com/spf13/pflag v1.0.5 // indirect
+	github.com/spf13/viper v1.18.2 // indirect
+	github.com/subosito/gotenv v1.6.0 // indirect
 	github.com/valyala/fastrand v1.1.0 // indirect
 	github.com/valyala/histogram v1.2.0 // indirect
+	go.uber.org/automaxprocs v1.5.3 // indirect
 	go.uber.org/multierr v1.11.0 // indirect
 	golang.org/x/exp v0.0.0-20231226003508-02704c960a9b // indirect
 	golang.org/x/net v0.24.0 // indirect
@@ -61,6 +75,40 @@ require (
 	golang.org/x/text v0.14.0 // indirect
 	golang.org/x/time v0.5.0 // indirect
 	google.golang.org/genproto/googleapis/rpc v0.0.0-20240415180920-8c6c420018be // indirect
+	gopkg.in/ini.v1 v1.67.0 // indirect
+	gopkg.in/yaml.v3 v3.0.1 // indirect
 )
 
 replace github.com/jamf/regatta => /repo
+
+require (
+	github.com/pseudomuto/protoc-gen-doc v1.5.1 // indirect (as pinned by /repo)
+	github.com/stretchr/testify v1.9.0 // indirect (as pinned by /repo)
+	go.uber.org/atomic v1.11.0 // indirect (as pinned by /repo)
+	google.golang.org/grpc/cmd/protoc-gen-go-grpc v1.3.0 // indirect (as pinned by /repo)
+	github.com/Masterminds/goutils v1.1.1 // indirect (as pinned by /repo)
+	github.com/Masterminds/semver v1.5.0 // indirect (as pinned by /repo)
+	github.com/Masterminds/sprig v2.22.0+incompatible // indirect (as pinned by /repo)
+	github.com/cpuguy83/go-md2man/v2 v2.0.3 // indirect (as pinned by /repo)
+	github.com/davecgh/go-spew v1.1.2-0.20180830191138-d8f796af33cc // indirect (as pinned by /repo)
+	github.com/envoyproxy/protoc-gen-validate v1.0.4 // indirect (as pinned by /repo)
+	github.com/golang/protobuf v1.5.4 // indirect (as pinned by /repo)
+	github.com/huandu/xstrings v1.4.0 // indirect (as pinned by /repo)
+	github.com/imdario/mergo v0.3.13 // indirect (as pinned by /repo)
+	github.com/inconshreveable/mousetrap v1.1.0 // indirect (as pinned by /repo)
+	github.com/mitchellh/copystructure v1.2.0 // indirect (as pinned by /repo)
+	github.com/mitchellh/reflectwalk v1.0.2 // indirect (as pinned by /repo)
+	github.com/mwitkow/go-proto-validators v0.3.2 // indirect (as pinned by /repo)
+	github.com/pelletier/go-toml/v2 v2.1.0 // indirect (as pinned by /repo)
+	github.com/pmezard/go-difflib v1.0.1-0.20181226105442-5d4384ee4fb2 // indirect (as pinned by /repo)
+	github.com/pseudomuto/protokit v0.2.1 // indirect (as pinned by /repo)
+	github.com/russross/blackfriday/v2 v2.1.0 // indirect (as pinned by /repo)
+	github.com/sagikazarmark/locafero v0.4.0 // indirect (as pinned by /repo)
+	github.com/sourcegraph/conc v0.3.0 // indirect (as pinned by /repo)
+	github.com/stretchr/objx v0.5.2 // indirect (as pinned by /repo)
+	golang.org/x/crypto v0.22.0 // indirect (as pinned by /repo)
+	golang.org/x/mod v0.16.0 // indirect (as pinned by /repo)
+	golang.org/x/tools v0.16.1 // indirect (as pinned by /repo)
+	google.golang.org/genproto v0.0.0-20240227224415-6ceb2ff114de // indirect (as pinned by /repo)
+	google.golang.org/genproto/googleapis/api v0.0.0-20240227224415-6ceb2ff114de // indirect (as pinned by /repo)
+)
